@@ -154,8 +154,12 @@ func dash(s string) string {
 }
 
 // VerifSend drives a real OutgoingConnection: m<parts> slices a new message of that many chunks into
-// the window, c<seq> is AckChunk, p<n> is AckPrefix; after every operation the prefix, the end of the
-// window, the acknowledged flags inside the window and the number of released messages are reported.
+// the window (28-byte chunks, the last one 4 bytes), s<len> a one-chunk message of len bytes, c<seq> is
+// AckChunk, p<n> is AckPrefix, t0 is OnResendTimeout, r<a>-<b>/<c>-<d> installs a resend request the way
+// goWriteStep does, g0 is GetChunksToSend. After every operation the prefix, the end of the window, the
+// acknowledged flags inside the window, the number of released messages and the four send cursors are
+// reported; after g0 also the first sequence number, the single-message flag, the sequence numbers of the
+// chunks actually returned (identified by their payload slices) and the resend cursors.
 func VerifSend(ops string) string {
 	MaxChunkSize = MaxFuzzChunkSize
 	var released []string
@@ -167,33 +171,80 @@ func VerifSend(ops string) string {
 	o := &conn.outgoing
 	var steps []string
 	nmsg := 0
+	newMsg := func(size int) {
+		msg := make([]byte, size)
+		msg[0] = byte(nmsg)
+		nmsg++
+		o.messageQueue.PushBack(&OutgoingMessage{payload: &msg, seqNo: (1 << 32) - 1, offset: o.totalMessagesOffset, refCount: 1})
+		o.totalMessagesOffset += int64(len(msg))
+		o.sliceNextMessage(t, 0)
+	}
 	if ops != "-" {
 		for _, op := range strings.Split(ops, ",") {
 			if len(op) < 2 {
 				return "bad-op"
 			}
-			n, err := strconv.Atoi(op[1:])
-			if err != nil {
-				return "bad-op"
-			}
-			switch op[0] {
-			case 'm':
-				if n < 1 || nmsg > 250 {
+			extra := ""
+			if op[0] == 'r' {
+				var req tlnetUdpPacket.ResendRequest
+				for _, r := range strings.Split(op[1:], "/") {
+					ab := strings.Split(r, "-")
+					if len(ab) != 2 {
+						return "bad-op"
+					}
+					a, err1 := strconv.Atoi(ab[0])
+					b, err2 := strconv.Atoi(ab[1])
+					if err1 != nil || err2 != nil {
+						return "bad-op"
+					}
+					req.Ranges = append(req.Ranges, tlnetUdpPacket.ResendRange{PacketNumFrom: uint32(a), PacketNumTo: uint32(b)})
+				}
+				o.resendRanges = req
+				o.resendIndex = 0
+				o.rangeInnerIndex = 0
+			} else {
+				n, err := strconv.Atoi(op[1:])
+				if err != nil {
 					return "bad-op"
 				}
-				chunk := t.maxOutgoingPayloadSize - 4
-				msg := make([]byte, chunk*(n-1)+4)
-				msg[0] = byte(nmsg)
-				nmsg++
-				o.messageQueue.PushBack(&OutgoingMessage{payload: &msg, seqNo: (1 << 32) - 1, offset: o.totalMessagesOffset, refCount: 1})
-				o.totalMessagesOffset += int64(len(msg))
-				o.sliceNextMessage(t, 0)
-			case 'c':
-				_ = o.AckChunk(t, uint32(n))
-			case 'p':
-				_ = o.AckPrefix(t, uint32(n))
-			default:
-				return "bad-op"
+				switch op[0] {
+				case 'm':
+					if n < 1 || nmsg > 250 {
+						return "bad-op"
+					}
+					newMsg((t.maxOutgoingPayloadSize-4)*(n-1) + 4)
+				case 's':
+					if n < 1 || n > 28 || nmsg > 250 {
+						return "bad-op"
+					}
+					newMsg(n)
+				case 'c':
+					_ = o.AckChunk(t, uint32(n))
+				case 'p':
+					_ = o.AckPrefix(t, uint32(n))
+				case 't':
+					o.OnResendTimeout()
+				case 'g':
+					chunks, first, single := o.GetChunksToSend(t, nil)
+					var seqs []string
+					for _, ch := range chunks {
+						found := "?"
+						for s := o.ackSeqNoPrefix; s < o.nextSeqNo; s++ {
+							p := o.window.GetPtr(s)
+							if p != nil && len(p.payload) > 0 && len(ch) > 0 && &p.payload[0] == &ch[0] {
+								found = strconv.Itoa(int(s))
+							}
+						}
+						seqs = append(seqs, found)
+					}
+					sg := 0
+					if single {
+						sg = 1
+					}
+					extra = fmt.Sprintf(":g%d.%d.%s.%d.%d", first, sg, dash(strings.Join(seqs, "+")), o.resendIndex, o.rangeInnerIndex)
+				default:
+					return "bad-op"
+				}
 			}
 			var flags strings.Builder
 			for s := o.ackSeqNoPrefix; s < o.nextSeqNo; s++ {
@@ -206,7 +257,8 @@ func VerifSend(ops string) string {
 					flags.WriteByte('0')
 				}
 			}
-			steps = append(steps, fmt.Sprintf("%d:%d:%s:%d", o.ackSeqNoPrefix, o.nextSeqNo, dash(flags.String()), len(released)))
+			steps = append(steps, fmt.Sprintf("%d:%d:%s:%d:%d.%d.%d.%d%s", o.ackSeqNoPrefix, o.nextSeqNo, dash(flags.String()), len(released),
+				o.timeoutedSeqNum, o.nonTimeoutedSeqNum, o.notSendedSeqNum, o.chunkToSendSeqNum, extra))
 		}
 	}
 	return "ok " + dash(strings.Join(steps, ",")) + " " + dash(strings.Join(released, ","))
